@@ -27,8 +27,8 @@ ENCODED = [
     "tdgl.solver.options:SolverOptions.validate",
 ]
 BOUNDS = {
-    "quick": dict(devices=["bar2"], row_devices=["bar2"], steps="one inductive step from an arbitrary state", refreshes=2),
-    "thorough": dict(devices=["bar2", "bar3"], row_devices=["bar2", "tee3"], steps="one inductive step from an arbitrary state", refreshes=3),
+    "quick": dict(devices=["bar2", "bar2:remeshed"], row_devices=["bar2"], steps="one inductive step from an arbitrary state", refreshes=2),
+    "thorough": dict(devices=["bar2", "bar2:remeshed", "bar3"], row_devices=["bar2", "tee3"], steps="one inductive step from an arbitrary state", refreshes=3),
 }
 ASSUMPTIONS = [
     "mesh weights arbitrary positive reals on the real device meshes (terminal membership concrete)",
@@ -46,6 +46,19 @@ TV_SAMPLES = {"quick": 2, "thorough": 2}
 
 def patch_spec(case):
     return S.patch_spec(extra_modules=["tdgl.solver.options"])
+
+
+def terminal_sites_by_geometry(dev):
+    """independent of Device.terminal_info() (and of anything it may cache): the boundary sites of the
+    *current* mesh that lie in a terminal polygon"""
+    xi0 = float(dev.coherence_length.magnitude)
+    pts = xi0 * np.asarray(dev.mesh.sites, dtype=float)
+    boundary = set(int(i) for i in dev.mesh.boundary_indices)
+    out = []
+    for term in dev.terminals:
+        inside = np.atleast_1d(term.contains_points(pts))
+        out += [i for i in range(len(pts)) if inside[i] and i in boundary]
+    return out
 
 
 def cases(tier, seed):
@@ -137,7 +150,11 @@ def body_step(H, case):
         A3 = concatenate([A, S.zeros2(H, ne, 1)], axis=1)
     eps = H.reals("eps", ns, lo=-1.0, hi=1.0)
     solver = S.make_solver(H, dev, opts, A=lambda x, y, z: A3, currents=None, epsilon=S.site_function(dev, eps), validate=(case.v != "sym"))
-    fixed = sorted(int(i) for i in np.concatenate([t.site_indices for t in solver.terminal_info]))
+    fixed = sorted(set(terminal_sites_by_geometry(meshes.get_device(case.dev, case.seed))))
+    H.prove("the solver's terminal sites are the boundary sites of the current mesh inside a terminal polygon",
+            sorted(set(int(i) for i in np.concatenate([t.site_indices for t in solver.terminal_info]))) == fixed)
+    if v is not None:
+        H.prove("the sites the solver holds fixed are exactly those terminal sites", sorted(set(int(i) for i in np.asarray(solver.operators.fixed_sites))) == fixed)
     # initial condition
     for i in range(ns):
         want = 1.0 if (i not in fixed or v is None) else v
